@@ -29,15 +29,20 @@ import (
 // fetches [current+1..i] from the governance contract. A fake node (go-ethereum rpc.Server on a unix socket)
 // serves the contract; a generated hook appends further sets *while* that fetch is in flight, as the
 // periodic refresh does. Whatever happens in between, the answer for index i is the set with index i.
+// Lookups may also name an index the chain has not created yet (anyone can gossip a VAA that names one); the
+// contract answers such a query the way the Solidity getter does, with an empty set. Once the chain has
+// created set i, the answer for i is that set, whatever was asked before.
 
 type c19cOp struct {
 	Idx      int `json:"idx"`      // index looked up
 	HookAt   int `json:"hookat"`   // while the chain is asked for this index ...
 	AppendTo int `json:"appendto"` // ... sets up to this index are appended concurrently (0 = no hook)
+	Grow     int `json:"grow"`     // before the lookup the chain creates this many further sets
 }
 
 type c19cCase struct {
 	Initial int      `json:"initial"`
+	Boot    bool     `json:"boot,omitempty"` // the initial sets are fetched from the chain, as at start-up, instead of being handed in
 	ChainN  int      `json:"chainn"` // the chain knows sets 0..ChainN
 	Ops     []c19cOp `json:"ops"`
 }
@@ -69,7 +74,10 @@ func (a *gsAPI) Call(ctx context.Context, args map[string]interface{}, block int
 	}
 	switch m.Name {
 	case "getCurrentGuardianSetIndex":
-		return m.Outputs.Pack(uint32(a.c.n))
+		a.c.mu.Lock()
+		n := a.c.n
+		a.c.mu.Unlock()
+		return m.Outputs.Pack(uint32(n))
 	case "getGuardianSet":
 		vals, err := m.Inputs.Unpack(raw[4:])
 		if err != nil || len(vals) != 1 {
@@ -79,15 +87,24 @@ func (a *gsAPI) Call(ctx context.Context, args map[string]interface{}, block int
 		a.c.mu.Lock()
 		a.c.calls++
 		hook := a.c.hook
+		n := a.c.n
 		a.c.mu.Unlock()
 		if hook != nil {
 			hook(idx)
 		}
-		var keys []ethcommon.Address
-		if int(idx) <= a.c.n {
+		keys := []ethcommon.Address{}
+		if int(idx) <= n {
 			keys = mkSet(int(idx)).Keys
 		}
-		return m.Outputs.Pack(ethAbi.StructsGuardianSet{Keys: keys, ExpirationTime: 0})
+		// as on a real chain: the current set never expires, the one before it is in its grace period, older ones expired long ago
+		exp := uint32(0)
+		switch {
+		case int(idx) == n-1:
+			exp = uint32(time.Now().Unix() + 86400)
+		case int(idx) < n-1:
+			exp = uint32(1600000000 + int(idx))
+		}
+		return m.Outputs.Pack(ethAbi.StructsGuardianSet{Keys: keys, ExpirationTime: exp})
 	}
 	return nil, fmt.Errorf("unsupported call %s", m.Name)
 }
@@ -120,17 +137,39 @@ func runC19c(c c19cCase) (*vh.Violation, vh.Outcome) {
 	for i := 0; i < c.Initial; i++ {
 		init = append(init, mkSet(i))
 	}
+	if c.Boot {
+		// what main.go does: everything the chain has at start-up, from index 0
+		chain.mu.Lock()
+		chain.n = c.Initial - 1
+		chain.mu.Unlock()
+		ctx, cancel := context.WithTimeout(context.Background(), 10*time.Second)
+		init, err = GetGuardianSetsFromChain(ctx, path, ethcommon.Address{19: 1}, 0)
+		cancel()
+		if err != nil {
+			return vh.V("C19/boot-fetch-failed", "fetching sets 0..%d at start-up failed: %v", c.Initial-1, err), out
+		}
+		if len(init) == 0 {
+			return vh.V("C19/boot-fetch-failed", "fetching sets 0..%d at start-up returned nothing", c.Initial-1), out
+		}
+		chain.mu.Lock()
+		chain.n = c.ChainN
+		chain.mu.Unlock()
+		out.Labels = append(out.Labels, "booted-from-chain")
+	}
 	gsC := make(chan *common.GuardianSet, 10000)
 	gs := NewGuardianSets(init, path, zap.NewNop(), time.Hour, ethcommon.Address{19: 1}, gsC)
+	chainN := c.ChainN
+	askedAhead := map[int]bool{}
 	for oi, o := range c.Ops {
-		if o.Idx > c.ChainN {
-			continue
-		}
 		cur := gs.currentIndex()
 		fired := false
 		chain.mu.Lock()
+		if o.Grow > 0 {
+			chain.n += o.Grow
+			chainN = chain.n
+		}
 		chain.hook = nil
-		if o.AppendTo > 0 && o.AppendTo <= c.ChainN {
+		if o.AppendTo > 0 && o.AppendTo <= chainN {
 			chain.hook = func(index uint32) {
 				if int(index) != o.HookAt || fired {
 					return
@@ -147,6 +186,20 @@ func runC19c(c c19cCase) (*vh.Violation, vh.Outcome) {
 		ctx, cancel := context.WithTimeout(context.Background(), 5*time.Second)
 		s, err := gs.GetGuardianSet(ctx, o.Idx)
 		cancel()
+		if o.Idx > chainN {
+			// no such set yet: an error is the honest answer; whatever is answered, nothing may stick (checked
+			// by the later lookups, once the chain has created the set)
+			out.Labels = append(out.Labels, "index-not-on-chain-yet")
+			askedAhead[o.Idx] = true
+			continue
+		}
+		for a := range askedAhead {
+			if a <= chainN && o.Idx <= a && o.Idx > c.Initial-1 {
+				out.NonTrivial = true
+				out.Labels = append(out.Labels, "lookup-after-the-chain-caught-up-with-an-early-request")
+				break
+			}
+		}
 		if o.Idx > cur {
 			out.Labels = append(out.Labels, "future-index")
 			if fired && o.AppendTo > o.Idx {
@@ -159,15 +212,20 @@ func runC19c(c c19cCase) (*vh.Violation, vh.Outcome) {
 		}
 		want := mkSet(o.Idx)
 		if int(s.Index) != o.Idx || len(s.Keys) != len(want.Keys) || s.Keys[0] != want.Keys[0] || s.Keys[1] != want.Keys[1] {
-			return vh.V("C19/lookup-returns-other-set", "op %d: GetGuardianSet(%d) returned the set with index %d (keys %v); explorer was at index %d, sets up to %d were appended while the chain was asked for set %d",
-				oi, o.Idx, s.Index, s.Keys, cur, o.AppendTo, o.HookAt), out
+			return vh.V("C19/lookup-returns-other-set", "op %d: GetGuardianSet(%d) returned the set with index %d (keys %v) while the chain holds sets 0..%d; explorer was at index %d, sets up to %d were appended while the chain was asked for set %d, indices asked for before the chain had them: %v",
+				oi, o.Idx, s.Index, s.Keys, chainN, cur, o.AppendTo, o.HookAt, askedAhead), out
 		}
 	}
-	// every index up to the current one answers with its own set
-	for i := 0; i <= gs.currentIndex(); i++ {
-		s, err := gs.GetGuardianSet(context.Background(), i)
-		if err != nil || s == nil || int(s.Index) != i || s.Keys[0] != mkSet(i).Keys[0] {
-			return vh.V("C19/lookup-wrong-after-append", "GetGuardianSet(%d) after the history: %v %v", i, s, err), out
+	// every index the chain has answers with its own set
+	chain.mu.Lock()
+	chain.hook = nil
+	chain.mu.Unlock()
+	for i := 0; i <= chainN; i++ {
+		ctx, cancel := context.WithTimeout(context.Background(), 5*time.Second)
+		s, err := gs.GetGuardianSet(ctx, i)
+		cancel()
+		if err != nil || s == nil || int(s.Index) != i || len(s.Keys) != len(mkSet(i).Keys) || s.Keys[0] != mkSet(i).Keys[0] {
+			return vh.V("C19/lookup-wrong-after-append", "GetGuardianSet(%d) after the history (chain holds sets 0..%d, indices asked for before the chain had them: %v): %v %v", i, chainN, askedAhead, s, err), out
 		}
 	}
 	return nil, out
@@ -175,11 +233,14 @@ func runC19c(c c19cCase) (*vh.Violation, vh.Outcome) {
 
 func TestVerif_C19_FutureLookup(t *testing.T) {
 	vh.Check(t, vh.Prop[c19cCase]{ID: "C19", Gen: func(t *rapid.T) c19cCase {
-		c := c19cCase{Initial: rapid.IntRange(1, 3).Draw(t, "initial")}
+		c := c19cCase{Initial: rapid.IntRange(1, 4).Draw(t, "initial"), Boot: rapid.Bool().Draw(t, "boot")}
 		c.ChainN = c.Initial - 1 + rapid.IntRange(1, 8).Draw(t, "ahead")
 		op := rapid.Custom(func(t *rapid.T) c19cOp {
-			o := c19cOp{Idx: rapid.OneOf(rapid.IntRange(0, c.ChainN), rapid.IntRange(c.Initial, c.ChainN)).Draw(t, "idx")}
-			if rapid.IntRange(0, 2).Draw(t, "hook") > 0 {
+			o := c19cOp{Idx: rapid.OneOf(rapid.IntRange(0, c.ChainN), rapid.IntRange(c.Initial, c.ChainN), rapid.IntRange(c.ChainN+1, c.ChainN+6)).Draw(t, "idx")}
+			if rapid.IntRange(0, 3).Draw(t, "grow") == 0 {
+				o.Grow = rapid.IntRange(1, 3).Draw(t, "by")
+			}
+			if o.Idx <= c.ChainN && rapid.IntRange(0, 2).Draw(t, "hook") > 0 {
 				// mostly: the append happens while one of the last sets of the requested range is fetched and reaches past it
 				o.HookAt = o.Idx - rapid.IntRange(0, 2).Draw(t, "before")
 				if o.HookAt < 0 {
